@@ -959,6 +959,66 @@ func runSeq(g *prng.R) *seqRun {
 	return r
 }
 
+// ---------------------------------------------------------------- pinned sequences
+
+func tk(fail int, dir bool, nq int) tok { return tok{fail: fail, dir: dir, nq: nq} }
+
+func mk(kind string, fid, fid2 uint32, names []string, name string, mode uint8, ts ...tok) *opT {
+	o := &opT{kind: kind, fid: fid, fid2: fid2, names: names, name: name, mode: mode}
+	copy(o.toks[:], ts)
+	return o
+}
+
+// corpus: the witnesses of the repaired defects and a few hand-written
+// sequences; they run before the random ones in every run, whatever the seed.
+func corpus() [][]*opT {
+	d := tk(0, true, 9)
+	f := tk(0, false, 9)
+	e := tk(1, false, 0)
+	n := tk(2, false, 0)
+	return [][]*opT{
+		// D8: attach with an afid that is bound but not open must not leave it locked
+		{mk("attach", 1, NOFID, nil, "", 0, d), mk("attach", 2, 1, nil, "", 0, d), mk("read", 1, 0, nil, "", 0), mk("stat", 1, 0, nil, "", 0)},
+		// ... nor when it is open (File is not an AuthFile)
+		{mk("attach", 1, NOFID, nil, "", 0, d), mk("open", 1, 0, nil, "", 0), mk("attach", 2, 1, nil, "", 0, d), mk("read", 1, 0, nil, "", 0)},
+		// D9: create of a directory whose OpenDir fails returns, unbinds the fid, clunks the new entry
+		{mk("attach", 0, NOFID, nil, "", 0, d), mk("create", 0, 0, nil, "n", 0, d, e, f), mk("stat", 0, 0, nil, "", 0), mk("attach", 0, NOFID, nil, "", 0, d)},
+		{mk("attach", 0, NOFID, nil, "", 0, d), mk("create", 0, 0, nil, "n", 2, d, n, e), mk("clunk", 0, 0, nil, "", 0)},
+		// in-place walk of an open directory fid: the fid is not open afterwards
+		{mk("attach", 1, NOFID, nil, "", 0, d), mk("open", 1, 0, nil, "", 0), mk("read", 1, 0, nil, "", 0), mk("walk", 1, 1, []string{"a"}, "", 0, d, e), mk("read", 1, 0, nil, "", 0), mk("open", 1, 0, nil, "", 1), mk("write", 1, 0, nil, "", 0)},
+		// nil ReadNext with nil error from OpenDir
+		{mk("attach", 2, NOFID, nil, "", 0, d), mk("open", 2, 0, nil, "", 0, n), mk("read", 2, 0, nil, "", 0), mk("open", 2, 0, nil, "", 0), mk("read", 2, 0, nil, "", 0, e), mk("read", 2, 0, nil, "", 0), mk("read", 2, 0, nil, "", 0)},
+		// clone, partial walk, failed walk, walk onto bound fid, onto NOFID, in-place no-op, clunk with error, reuse
+		{mk("attach", 0, NOFID, nil, "", 0, d), mk("walk", 0, 1, nil, "", 0, d), mk("walk", 0, 2, []string{"a", "b"}, "", 0, tk(0, false, 1)),
+			mk("walk", 0, 2, []string{"a", "b"}, "", 0, e), mk("walk", 0, 2, []string{"a", "b"}, "", 0, n), mk("walk", 0, 1, []string{"a"}, "", 0, f),
+			mk("walk", 0, NOFID, []string{"a"}, "", 0, f), mk("walk", 0, 0, nil, "", 0, f), mk("walk", 0, 2, []string{"a", "b"}, "", 0, f),
+			mk("walk", 2, 3, []string{"c"}, "", 0, f), mk("walk", 0, 3, []string{"a", ".."}, "", 0, f), mk("walk", 0, 3, []string{"..", "a"}, "", 0, tk(0, false, 0)),
+			mk("clunk", 1, 0, nil, "", 0, e), mk("walk", 0, 1, nil, "", 0, d), mk("remove", 1, 0, nil, "", 0, e), mk("attach", 1, NOFID, nil, "", 0, e), mk("attach", 1, NOFID, nil, "", 0, f)},
+		// create: file, nil entry, nil File, in a non-directory, illegal name; read/write gates on every mode
+		{mk("attach", 0, NOFID, nil, "", 0, d), mk("walk", 0, 1, nil, "", 0, d), mk("walk", 0, 2, nil, "", 0, d), mk("walk", 0, 3, nil, "", 0, d),
+			mk("create", 0, 0, nil, "n", 1, f), mk("write", 0, 0, nil, "", 0), mk("read", 0, 0, nil, "", 0), mk("create", 0, 0, nil, "m", 0, f),
+			mk("create", 1, 0, nil, "n", 2, n), mk("create", 1, 0, nil, "n", 2, tk(3, false, 0)), mk("create", 1, 0, nil, "..", 2, f), mk("create", 1, 0, nil, "n", 0x12, f),
+			mk("read", 1, 0, nil, "", 0), mk("write", 1, 0, nil, "", 0, e), mk("open", 2, 0, nil, "", 3), mk("read", 2, 0, nil, "", 0), mk("write", 2, 0, nil, "", 0),
+			mk("open", 3, 0, nil, "", 0x41), mk("write", 3, 0, nil, "", 0), mk("read", 3, 0, nil, "", 0), mk("stop", 0, 0, nil, "", 0), mk("attach", 3, NOFID, nil, "", 0, d), mk("stat", 3, 0, nil, "", 0)},
+	}
+}
+
+func runFixed(ops []*opT) *seqRun {
+	w := &world{}
+	r := &seqRun{w: w, sess: p9p.SFileSys(w), ref: map[uint32]*rbind{}, lockedSeen: map[uint32]bool{}}
+	for _, o := range ops {
+		if r.hung {
+			break
+		}
+		r.step(o)
+	}
+	if !r.hung {
+		r.step(&opT{kind: "stop"})
+		r.finish()
+	}
+	return r
+}
+
 func (r *seqRun) caseSexp(upto int) sx.S {
 	l := []sx.S{sx.Sym("seq")}
 	for i, o := range r.ops {
@@ -984,6 +1044,10 @@ func main() {
 	for i := range gens {
 		gens[i] = rng.Fork()
 	}
+	var pinned []*seqRun
+	for _, ops := range corpus() {
+		pinned = append(pinned, runFixed(ops))
+	}
 	results := make([]*seqRun, nseq)
 	var wg sync.WaitGroup
 	next := make(chan int, nseq)
@@ -1003,7 +1067,8 @@ func main() {
 	wg.Wait()
 	nops, nhang := 0, 0
 	reported := map[string]int{}
-	for _, s := range results {
+	r.Extra["pinned_sequences"] = len(pinned)
+	for _, s := range append(pinned, results...) {
 		okc := 0
 		for _, o := range s.ops {
 			if o.result == "ok" {
@@ -1031,7 +1096,7 @@ func main() {
 		}
 	}
 	delete(r.Hist, "seq")
-	r.Hist["sequences"] = nseq
+	r.Hist["sequences"] = nseq + len(pinned)
 	r.Extra["operations"] = nops
 	r.Extra["sequences_ending_in_hang"] = nhang
 	r.Extra["oracle_failures_by_key"] = reported
